@@ -18,6 +18,7 @@ package main
 import (
 	"encoding/json"
 	"fmt"
+	"runtime/debug"
 	"sort"
 	"strings"
 	"time"
@@ -218,6 +219,9 @@ func mutate(src string, m *mutation) string {
 }
 
 func main() {
+	// a compile that needs more than 64 MiB of goroutine stack for these small sources is a runaway recursion:
+	// fail fast (the default limit of 1 GB takes half a minute and a gigabyte to reach)
+	debug.SetMaxStack(64 << 20)
 	n := 0
 	err := vh.EachCase(func(_ int, raw []byte) error {
 		var c tcase
